@@ -138,6 +138,60 @@ Proof.
   split; [exact Hfin|]. split; [exact H4|]. lia.
 Qed.
 
+(* how often the job with ID n is scheduled *)
+Definition occ (n : name) (sched : list job) : nat :=
+  length (filter (fun j : job => name_eqb (fst j) n) sched).
+
+Lemma cw_step_pc : forall tmpf js d0, jobs_ok tmpf js ->
+  forall st m dm, In (m, dm) js -> cw_inv tmpf js d0 st ->
+  snd (cw_step tmpf (m, dm) st) m = Nat.min 4 (S (snd st m)) /\
+  forall n, n <> m -> snd (cw_step tmpf (m, dm) st) n = snd st n.
+Proof.
+  intros tmpf js d0 Hok [d p] m dm Hm Hinv.
+  destruct (Hinv m dm Hm) as (Mnd & Mtd & Mpc & M1 & M23 & M4 & Mfin).
+  unfold cw_step. cbn [snd].
+  destruct Mpc as [P|[P|[P|[P|P]]]]; rewrite P.
+  - rewrite Mtd. cbn [snd]. rewrite pc_set_same. split; [reflexivity|]. intros n Hn. apply pc_set_other; auto.
+  - rewrite (M1 P). cbn [snd]. rewrite pc_set_same. split; [reflexivity|]. intros n Hn. apply pc_set_other; auto.
+  - cbn [snd]. rewrite pc_set_same. split; [reflexivity|]. intros n Hn. apply pc_set_other; auto.
+  - rewrite (M23 (or_intror P)). rewrite Mnd. cbn [snd]. rewrite pc_set_same. split; [reflexivity|]. intros n Hn. apply pc_set_other; auto.
+  - cbn [snd]. split; [rewrite P; reflexivity|]. reflexivity.
+Qed.
+
+Lemma cw_run_pc : forall tmpf js d0, jobs_ok tmpf js ->
+  forall sched, (forall j, In j sched -> In j js) ->
+  forall st, cw_inv tmpf js d0 st ->
+  forall n data, In (n, data) js ->
+  snd (cw_run tmpf sched st) n = Nat.min 4 (snd st n + occ n sched).
+Proof.
+  intros tmpf js d0 Hok sched. induction sched as [|[m dm] rest IH]; intros Hs st Hinv n data Hin.
+  - destruct st as [d p]. destruct (Hinv n data Hin) as (_ & _ & Hpc & _). cbn [cw_run snd]. unfold occ. cbn [filter length].
+    destruct Hpc as [P|[P|[P|[P|P]]]]; rewrite P; reflexivity.
+  - cbn [cw_run].
+    assert (Hm : In (m, dm) js) by (apply Hs; left; reflexivity).
+    pose proof (cw_inv_step tmpf js d0 Hok st m dm Hm Hinv) as Hinv'.
+    rewrite (IH (fun j Hj => Hs j (or_intror Hj)) _ Hinv' n data Hin).
+    destruct (cw_step_pc tmpf js d0 Hok st m dm Hm Hinv) as [Hsame Hoth].
+    unfold occ. cbn [filter fst]. destruct (name_eqb m n) eqn:E.
+    + apply name_eqb_eq in E. subst m. rewrite Hsame. cbn [length]. lia.
+    + apply name_eqb_neq in E. rewrite Hoth by auto. reflexivity.
+Qed.
+
+(* every write that was given its four steps is complete, has succeeded, and its file holds its own bytes *)
+Lemma conc_writers_complete_lemma :
+  forall tmpf js d0, jobs_ok tmpf js -> no_dirs tmpf js d0 ->
+  forall sched, (forall j, In j sched -> In j js) ->
+  forall d p, cw_run tmpf sched (d0, pc0) = (d, p) ->
+  forall n data, In (n, data) js -> (4 <= occ n sched)%nat ->
+  p n = 4%nat /\ dir_get d n = Some (EFile data).
+Proof.
+  intros tmpf js d0 Hok Hnd sched Hs d p Hrun n data Hin Hocc.
+  pose proof (cw_run_pc tmpf js d0 Hok sched Hs (d0, pc0) (cw_inv_init tmpf js d0 Hnd) n data Hin) as Hp.
+  rewrite Hrun in Hp. cbn [snd] in Hp. unfold pc0 in Hp.
+  assert (P4 : p n = 4%nat) by lia. split; [exact P4|].
+  destruct (conc_writers_intact_lemma tmpf js d0 Hok Hnd sched Hs d p Hrun n data Hin) as (_ & H4 & _). auto.
+Qed.
+
 (* the temporary names of the tree: id ++ ".tmp", for IDs accepted by a matcher that rejects temporary names *)
 Lemma tmp_name_jobs_ok : forall matchf js, matcher_ok matchf ->
   NoDup (map fst js) -> (forall n data, In (n, data) js -> matchf n = true) -> jobs_ok tmp_name js.
